@@ -166,6 +166,12 @@ def applyDivider (name : String) (v : Val) : Except Err (Option (Val × Val)) :=
   if name = "set" then .ok (some (v, v))
   else if name = "zero" then .ok (some (.int 0, .int 0))
   else if name = "null" then .ok none
+  else if name = "split_dict" then
+    -- the second half of the items to the first daughter, the first half to the second
+    match v with
+    | .dict kvs => .ok (some (.dict (kvs.drop (kvs.length / 2)), .dict (kvs.take (kvs.length / 2))))
+    | .none => .ok (some (.dict [], .dict []))
+    | _ => .error .attributeError
   else if name = "no_divide" then .error .assertion
   else if name = "set_value" then .error .typeError
   else .error .exception
